@@ -69,10 +69,12 @@ def make_modifier(fa):
     return NS
 
 
-def expanded_graph(fa, name, dtype, nargs=1, simplify=True):
-    """Trace algorithms.<name> for `dtype` arguments and expand. Returns the apply-graph."""
+def expanded_graph(fa, name, dtype, nargs=1, simplify=True, ctx=None):
+    """Trace algorithms.<name> for `dtype` arguments and expand. Returns the apply-graph.  `ctx`: an existing Context to
+    trace in (histories on one shared Context); default a fresh one."""
     with quiet():
-        ctx = fa.Context(paths=[fa.algorithms])
+        if ctx is None:
+            ctx = fa.Context(paths=[fa.algorithms])
         g = ctx.trace(getattr(fa.algorithms, name), *([dtype] * nargs))
         ns = make_modifier(fa)
         g2 = g.rewrite(ns, fa.rewrite) if simplify else g.rewrite(ns)
